@@ -87,4 +87,4 @@ UNIT['pre_text'].append('struct TopologySplitEventData { uint32_t split_symbol_i
                         '/* the two event tables are counted, not stored: what matters here is how large they may grow */\n'
                         'struct EvCtx { uint16_t bitstream_version; int ct_num_faces; size_t ts_size; size_t he_size; int64_t entry_pos; int64_t remaining_at_entry; };')
 J('Edgebreaker.events.contract', 'h_enf_EB_DecodeHoleAndTopologySplitEvents', ['C18', 'C02'], enforce='EB_DecodeHoleAndTopologySplitEvents', loops=True, cbmc=['--object-bits', '10'],
-  replace=['DecoderBuffer_Decode_u32', 'DecoderBuffer_Decode_i32', 'DecoderBuffer_Decode_u8', 'DecodeVarint_u32', 'tsvec_push', 'hevec_push', 'evvec_reserve', 'ts_set_edge', 'GB_Start', 'GB_Decode', 'GB_End'], timeout=900, cost=4)
+  replace=['DecoderBuffer_Decode_u32', 'DecoderBuffer_Decode_i32', 'DecoderBuffer_Decode_u8', 'DecodeVarint_u32', 'tsvec_push', 'hevec_push', 'evvec_reserve', 'ts_set_edge', 'GB_Start', 'GB_Decode', 'GB_End'], timeout=2400, cost=6)
